@@ -173,11 +173,15 @@ def cache_history(col, case):
                 raise _Broken("connection lost")
             return super().read(*(a or (64,)) if fail_next[0] else a)
 
+    garbage_next = [False]
+
     class FakeRequest:
         @staticmethod
         def urlopen(url, *a, **k):
             name = url.rstrip("/").split("/")[-1].replace(".dem.zip", "")
             started.append(name)
+            if garbage_next[0]:
+                return io.BytesIO(b"<html><body>502 Bad Gateway</body></html>")
             buf = io.BytesIO()
             with zipfile.ZipFile(buf, "w") as z:
                 z.writestr(name.upper() + ".DEM", content(name).tobytes())
@@ -195,9 +199,10 @@ def cache_history(col, case):
             content(names[t]).tofile(os.path.join(root, (names[t] + ".dem").upper()))
         for t, outcome in hist:
             fail_next[0] = outcome == "fail"
+            garbage_next[0] = outcome == "garbage"
             try:
                 y = SRTM30.get_tile(names[t])
-                if outcome == "fail":
+                if outcome != "ok":
                     col.violation("broken-transfer-went-unnoticed", {"abstract": case})
                     return
             except _Broken:
@@ -205,11 +210,14 @@ def cache_history(col, case):
                     raise
                 continue
             except Exception as ex:
-                col.violation("get_tile-raises-" + type(ex).__name__ + ("-after-broken-transfer" if any(o == "fail" for _, o in hist) else ""),
+                if outcome == "garbage":
+                    continue                # whatever error reports that the body was not an archive
+                col.violation("get_tile-raises-" + type(ex).__name__ + ("-after-broken-transfer" if any(o != "ok" for _, o in hist) else ""),
                               {"abstract": case, "observed": repr(ex)[:200]})
                 return
             finally:
                 fail_next[0] = False
+                garbage_next[0] = False
             if y.shape != (H, W) or not np.array_equal(y, content(names[t])):
                 col.violation("get_tile-wrong-content", {"abstract": case})
                 return
@@ -252,6 +260,7 @@ def run(ctx):
     cases += gen(ctx, d, [11999, 12000, 12001, 12030], [1, 3, 30, 60] + [0])         # at 180 W
     cases += gen(ctx, d, [23997, 24000, 24030], [86340, 86370, 86399, 86400])       # at 180 E, 10 S band edge
     cases += gen(ctx, d, [3, 30, 61], [43170, 43199, 43200, 43230])                 # near the pole row, 0 E tile edge
+    cases += gen(ctx, d, [35940, 35997, 35999, 36000], [9570, 9600, 9601])          # the last rows above 60 S, the data's edge
     if quick:
         cases = ctx.rng.sample(cases, 80)
         other = gen(ctx, d, near(24000), near(9600 * 5))          # the 10 S / 20 E corner
